@@ -232,6 +232,12 @@ class JSONSerializer(AbstractIncrementalPacketSerializer[Any, Any]):
                     },
                 ) from exc
             raise DeserializeError(msg) from exc
+        except (ValueError, RecursionError) as exc:
+            # Too many nested levels or too many digits for an integer: the document is still invalid input.
+            msg = f"JSON decode error: {exc}"
+            if self.debug:
+                raise DeserializeError(msg, error_info={"document": document}) from exc
+            raise DeserializeError(msg) from exc
         return packet
 
     @final
@@ -298,6 +304,12 @@ class JSONSerializer(AbstractIncrementalPacketSerializer[Any, Any]):
                         "colno": exc.colno,
                     },
                 ) from exc
+            raise IncrementalDeserializeError(msg, remaining_data) from exc
+        except (ValueError, RecursionError) as exc:
+            # Too many nested levels or too many digits for an integer: the document is still invalid input.
+            msg = f"JSON decode error: {exc}"
+            if self.debug:
+                raise IncrementalDeserializeError(msg, remaining_data=remaining_data, error_info={"document": document}) from exc
             raise IncrementalDeserializeError(msg, remaining_data) from exc
         return packet, remaining_data
 
